@@ -724,6 +724,25 @@ def search_for_paths(logger: ConsolePrinter, processor: EYAMLProcessor,
                 )
                 yield YAMLPath(tmp_path)
 
+    elif data is not None and search_values:
+        # The document is a lone scalar value, which sits at the document
+        # root.  (An empty document has no nodes.)
+        if not build_path and pathsep is PathSeparators.FSLASH:
+            build_path = strsep
+
+        check_value = data
+        if decrypt_eyaml and processor.is_eyaml_value(data):
+            check_value = processor.decrypt_eyaml(data)
+
+        matches = Searches.search_matches(method, term, check_value)
+        if (matches and not invert) or (invert and not matches):
+            logger.debug(
+                ("yaml_paths::search_for_paths<scalar>:"
+                 + "yielding VALUE match, {}:  {}."
+                ).format(check_value, build_path)
+            )
+            yield YAMLPath(build_path)
+
 def get_search_term(logger: ConsolePrinter,
                     expression: str) -> Optional[SearchTerms]:
     """
